@@ -74,16 +74,16 @@ theorem stateAfter_append (c : Cfg) : ∀ (h1 h2 : List Op) (σ : St),
   | op :: ops, h2, σ => by simp [stateAfter, stateAfter_append c ops h2]
 
 /-- an execution makes the gate-level result describe it. -/
-theorem exec_fresh (c : Cfg) (hc : c.rebind = true) (σ : St) (x : Op) (hx : x.isExec = true)
-    (h : GInv σ) : Fresh (step c σ x).1 σ.drawn.length := by
+theorem exec_fresh (c : Cfg) (hc : c.rebind = true) (hr : c.resets = true) (σ : St) (x : Op)
+    (hx : x.isExec = true) (h : GInv σ) : Fresh (step c σ x).1 σ.drawn.length := by
   obtain ⟨hb, hl⟩ := h
   cases x with
   | plain =>
-    refine ⟨hb, ?_, Or.inl ⟨rfl, ?_⟩⟩
+    refine ⟨hb, ?_, Or.inl ⟨by simp [step, hr], ?_⟩⟩
     · simp only [step]; rw [List.getElem?_set_self (by omega)]; rfl
     · simp [step]
   | prep =>
-    refine ⟨by simp [step, hc], ?_, Or.inl ⟨rfl, ?_⟩⟩
+    refine ⟨by simp [step, hc], ?_, Or.inl ⟨by simp [step, hr], ?_⟩⟩
     · simp only [step, hc, if_true]
       rw [List.getElem?_set_self (by simp)]; rfl
     · simp [step]
